@@ -596,7 +596,10 @@ fn call_timeout<R: Send + 'static>(ms: u64, f: impl FnOnce() -> R + Send + 'stat
 /// desegmenters for archive headers with ZERO outputs (a header claiming `output_mmr_size = 0`: header
 /// validation does not look at the MMR sizes; the plain `genesis_dev()` header has them 0), with zero
 /// outputs and kernels, and for the genesis header (a chain shorter than the sync threshold).
-/// Runs last: a call that hangs is abandoned in its thread, which spins until the process exits.
+/// Every call must come back with Ok or Err and, for a tree whose MMR size is claimed 0, with Err (repaired
+/// in /repo 362e7d94e; before, `add_output_segment` / `add_rangeproof_segment` never returned once the empty
+/// bitmap was finalised: finding C11-desegmenter-zero-size-archive-header-hangs, kept as a regression probe).
+/// Runs last: should a call hang again it is abandoned in its thread, which spins until the process exits.
 fn zero_phase(cx: &mut Cx, work: &str) {
 	let hs = (0u8, 2u8, 2u8, 1u8);
 	let mut kit = Kit::new(&format!("{}/src_zero", work));
@@ -661,7 +664,9 @@ fn zero_phase(cx: &mut Cx, work: &str) {
 							alive = false;
 						}
 						None => {
+							cx.fails += 1;
 							cx.out.raw(&format!("#KNOWN-PROBE C11 desegmenter-zero-size-archive-header-hangs apply_next_segments does not return for a desegmenter created for [{}]", label));
+							cx.out.raw(&format!("#ORACLE-FAIL C11 regression of repaired defect desegmenter-zero-size-archive-header-hangs: apply_next_segments does not return for a desegmenter created for [{}]", label));
 							alive = false;
 						}
 					}
@@ -688,6 +693,19 @@ fn zero_phase(cx: &mut Cx, work: &str) {
 					Some(Ok(res)) => {
 						let cl = class(&res);
 						cx.inc(&format!("{} ({}) | add_{} {} -> {}", label, phase, TREE[t], p.kind, cl));
+						// no segment exists in an MMR of size 0: whatever is handed over must be refused
+						let empty_tree = if t == 3 { hdr.kernel_mmr_size == 0 } else { hdr.output_mmr_size == 0 };
+						if empty_tree && res.is_ok() {
+							cx.fails += 1;
+							cx.out.raw(&format!(
+								"#ORACLE-FAIL C11 desegmenter-accepts-segment-of-empty-mmr state=[{} ({})] add_{}_segment accepted a {} segment (height {}, idx {}) although the archive header claims an MMR of size 0: {}",
+								label, phase, TREE[t], p.kind, id.height, id.idx, seg_hex(&p.seg).chars().take(800).collect::<String>()
+							));
+						}
+						if p.kind == "other-height" && cl != "Err:InvalidSegmentHeight" {
+							cx.fails += 1;
+							cx.out.raw(&format!("#ORACLE-FAIL C11 desegmenter-foreign-height state=[{} ({})] add_{}_segment answered {} to a segment of height {}", label, phase, TREE[t], cl, id.height));
+						}
 					}
 					Some(Err(msg)) => {
 						cx.fails += 1;
@@ -698,11 +716,16 @@ fn zero_phase(cx: &mut Cx, work: &str) {
 					}
 					None => {
 						hung[t] = true;
+						cx.fails += 1;
 						cx.inc(&format!("{} ({}) | add_{} {} -> HANG (> 1.5 s, abandoned)", label, phase, TREE[t], p.kind));
-						cx.out.raw(&format!(
-							"#KNOWN-PROBE C11 desegmenter-zero-size-archive-header-hangs add_{}_segment does not return (> 1.5 s; Segment::validate_with computes `mmr_size - 1` for mmr_size 0, which wraps to 2^64-1 in release arithmetic, and walks that range) for a desegmenter created for [{}] (archive header height {} output_mmr_size {} kernel_mmr_size {}); state {}; handed over: a {} segment (height {}, idx {}) {}",
+						// repaired in /repo 362e7d94e (Segment::root refuses a segment that does not exist in an MMR of the
+						// given size); finding C11-desegmenter-zero-size-archive-header-hangs: a reappearance is a regression
+						let txt = format!(
+							"add_{}_segment does not return (> 1.5 s) for a desegmenter created for [{}] (archive header height {} output_mmr_size {} kernel_mmr_size {}); state {}; handed over: a {} segment (height {}, idx {}) {}",
 							TREE[t], label, hdr.height, hdr.output_mmr_size, hdr.kernel_mmr_size, phase, p.kind, id.height, id.idx, seg_hex(&p.seg).chars().take(1200).collect::<String>()
-						));
+						);
+						cx.out.raw(&format!("#KNOWN-PROBE C11 desegmenter-zero-size-archive-header-hangs {}", txt));
+						cx.out.raw(&format!("#ORACLE-FAIL C11 regression of repaired defect desegmenter-zero-size-archive-header-hangs: {}", txt));
 					}
 				}
 			}
